@@ -21,7 +21,8 @@ def main():
     rep = Report(PID, 'proof')
     proof = prove('Properties_C08.v')
     handle_proof(rep, proof, 'see correspondence results of this run')
-    cfgs = quick_grid() if tr == 'quick' else thorough_grid()
+    # the horizontal-add variants of the horizontal sums / products (FASTOR_USE_HADD) are separate code
+    cfgs = (quick_grid() if tr == 'quick' else thorough_grid()) + [Config('avx2', 'c++14', '-O2', ['FASTOR_USE_HADD']), Config('sse42', 'c++17', '-O2', ['FASTOR_USE_HADD'])]
     ocaml_ready()
     def job(j):
         cfg, vt, ex = j
